@@ -71,6 +71,21 @@ func checkC14(c *Ctx, r *Report) {
 	}
 	r.count("may_return_nil_functions", len(sums))
 	r.count("may_return_nil_call_sites", nCalls)
+	// a possibly-nil value (nil literal on some path, missing map key) handed to a parameter the callee dereferences
+	na := w.nilArgSites()
+	for _, s := range na {
+		viol := ""
+		desc := "possibly-nil argument of " + s.Callee + " in " + s.Caller
+		if reason, ok := tbl.NilDeref[s.Key]; ok {
+			desc += " (invariant: " + reason + ")"
+		} else {
+			viol = fmt.Sprintf("%s: %s passes a value that is nil on some path (%s) to %s, which dereferences that parameter without a nil test: a crash, not a reported error", w.pos(s.Pos), s.Caller, s.Key[strings.Index(s.Key, " from ")+6:], s.Callee)
+		}
+		r.add("C14.a", "nilarg", s.Key, desc, []string{s.Caller, s.Callee}, []string{w.pos(s.Pos)}, viol)
+	}
+	r.count("possibly_nil_argument_sites", len(na))
+	// file-system errors are never lost: after a failing os/io call every way on is a failure exit
+	checkIOErrors(c, r, tbl)
 
 	// ---- C14.b panic-capable sites
 	ps := w.panicSites()
@@ -484,4 +499,60 @@ func checkMaterializeGuard(c *Ctx, r *Report) {
 	}
 	o = r.add("C14.c", "recursion", "materialize-cut", "every call cycle through type-declaration visiting passes the StartMaterializing guard", []string{edm}, ss, viol)
 	o.NonTrivial = true
+}
+
+// checkIOErrors: every call of an os / io function with an error result, anywhere in the
+// analysed packages: the error is tested and all failure paths fail (or handed on).
+func checkIOErrors(c *Ctx, r *Report, tbl *crashTables) {
+	w := c.W
+	n := 0
+	for _, fn := range w.SSAFuncs {
+		if fn.Pkg == nil {
+			continue
+		}
+		allInstrs(fn, false, func(f *ssa.Function, _ *ssa.BasicBlock, _ int, ins ssa.Instruction) {
+			cl, ok := ins.(ssa.CallInstruction)
+			if !ok {
+				return
+			}
+			if _, isDefer := ins.(*ssa.Defer); isDefer {
+				return
+			}
+			nm := calleeName(cl)
+			if !(strings.HasPrefix(nm, "os.") || strings.HasPrefix(nm, "(*os.File).") || strings.HasPrefix(nm, "io.") || strings.HasPrefix(nm, "path/filepath.Abs")) {
+				return
+			}
+			ev := errorResultOf(cl)
+			if ev == nil {
+				return
+			}
+			n++
+			key := fnShort(f) + ":" + nm
+			viol := ""
+			if ev.Referrers() == nil || len(*ev.Referrers()) == 0 {
+				// best-effort clean-up calls may ignore their error
+				if nm != "os.Remove" && nm != "os.RemoveAll" && nm != "(*os.File).Close" {
+					viol = fmt.Sprintf("%s: the error of %s is discarded in %s", w.pos(cl.Pos()), nm, fnShort(f))
+				}
+			} else if errResultIndex(enclosingNamed(f)) >= 0 {
+				tested := len(okEdgesOfCall(cl, -1)) > 0
+				if tested {
+					if _, v := w.errPropagatesAt(f, cl, -1, nm); v != "" {
+						viol = v + " (the command would report success although the file-system operation failed)"
+					}
+				}
+			}
+			if viol != "" {
+				if reason, ok := tbl.ErrDrop[key]; ok {
+					viol = ""
+					_ = reason
+				}
+			}
+			r.add("C14.a", "ioerr", "io:"+key, "a failing "+nm+" in "+fnShort(f)+" ends in an error, never in a silent success", []string{fnShort(f)}, []string{w.pos(cl.Pos())}, viol)
+		})
+	}
+	if n < 8 {
+		r.undecided("C14.a", "ioerr", "io:coverage", "", fmt.Sprintf("only %d os/io calls with an error result found (floor 8)", n))
+	}
+	r.count("io_calls_with_error_result", n)
 }
